@@ -67,7 +67,11 @@ void harness(void)
 		int r;
 		VP_ASSUME(idx <= 2);
 		VP_ASSERT(S_ISDIR(ino->base.mode), "mode type bits forced to directory");
+#ifdef VP_NO_UNPACK
+		r = -1; (void)idx;
+#else
 		r = sqfs_inode_unpack_dir_index_entry(ino, &ent, idx);
+#endif
 		if (r == 0) {
 			VP_ASSERT(ent != NULL && VP_R_OK(ent, sizeof(*ent) + ent->size + 2), "unpacked index entry holds its name");
 			VP_REACH("dir_index");
